@@ -986,8 +986,15 @@ func ruleProvKeyID(c *Ctx, r *Rep) {
 				}
 				mo := pv.Origins(ms.arg)
 				so := pv.Origins(d.result)
-				if len(mo) == 1 && len(so) == 1 && (mo[0] == so[0] || strings.Contains(mo[0], "="+so[0])) {
+				if len(mo) == 1 && len(so) == 1 && mo[0] == so[0] {
 					reaches = true
+				}
+				// inside a literal: the field holds the digest and nothing else (not the digest on one way and something
+				// else on another)
+				for _, fv := range literalFields(c, ms.arg) {
+					if fo := pv.Origins(fv); len(fo) == 1 && len(so) == 1 && fo[0] == so[0] {
+						reaches = true
+					}
 				}
 			}
 			r.Check(reaches, "keyid-value|"+cs.name+"|"+fk, c.FnPos(fn), "the marshalled identifier is the digest itself", sprintf("%v", reaches))
